@@ -71,7 +71,11 @@ where
                 let mut i = k as u64;
                 while i < n {
                     let mut rng = case_rng(seed, tag, i);
-                    f(&mut rng, i, &mut r);
+                    // a panic inside one case (harness or code under test outside an explicit
+                    // `catch`) must not lose the whole run: it is recorded as inconclusive
+                    if let Err((msg, loc)) = catch(|| f(&mut rng, i, &mut r)) {
+                        r.inconclusive(&format!("case panicked outside a monitored call at {loc}: {}", clip(&msg, 120)));
+                    }
                     i += t as u64;
                 }
                 r
